@@ -19,6 +19,7 @@ import time
 src, prop, name = sys.argv[1], sys.argv[2], sys.argv[3]
 flags = sys.argv[4:]
 tier = flags[flags.index("--tier") + 1] if "--tier" in flags else "quick"
+check_prop = flags[flags.index("--check") + 1] if "--check" in flags else prop   # the check to run (default: the targeted property's)
 VERIF = "/verif"
 res: dict = {"property": prop, "name": name, "at": time.strftime("%Y-%m-%d %H:%M:%S")}
 
@@ -60,7 +61,7 @@ try:
         # the check
         env = {"PYNENC_REPO": mut, "PYTHONPATH": f"{VERIF}:{mut}", "PYNENC_VERIF": "1", "PYTHONDONTWRITEBYTECODE": "1"}
         t0 = time.time()
-        rc, out = sh(["/venv/bin/python", "-m", "harness.run", prop, "--tier", tier], cwd=VERIF, env=env, timeout=3000)
+        rc, out = sh(["/venv/bin/python", "-m", "harness.run", check_prop, "--tier", tier], cwd=VERIF, env=env, timeout=3000)
         res["check_rc"], res["check_wall_s"] = rc, round(time.time() - t0, 1)
         lines = [l for l in out.splitlines() if l.startswith("VIOLATION") or l.startswith("  ")]
         res["check_violation_lines"] = [l[:300] for l in lines[:8]]
@@ -85,7 +86,7 @@ if "--keep" in flags and res.get("patch_applies") and res.get("demo_ok"):
     meta = {"property": prop, "name": name, "needs_to_manifest": notes[:1500], "demo": "PYTHONPATH=<tree> /venv/bin/python demo.py (0 on clean, non-zero on patched)",
             "confirmed": {"patch_applies": res.get("patch_applies"), "demo_clean_rc": res.get("demo_clean_rc"), "demo_patched_rc": res.get("demo_patched_rc"),
                           "suite": res.get("suite_summary", "not run"), "suite_failed": res.get("suite_failed", "")},
-            "check": {"cmd": f"./check {prop} --tier {tier} (against a scratch copy with the patch)", "detected": res.get("detected"), "concrete_input": res.get("concrete_input"),
+            "check": {"cmd": f"./check {check_prop} --tier {tier} (against a scratch copy with the patch)", "detected": res.get("detected"), "concrete_input": res.get("concrete_input"),
                       "violation_lines": res.get("check_violation_lines"), "wall_s": res.get("check_wall_s")}}
     json.dump(meta, open(os.path.join(dst, "meta.json"), "w"), indent=1)
     print("kept as", dst)
